@@ -51,11 +51,22 @@ type splitClient struct {
 	Pref string `json:"certificate_preference_position,omitempty"`
 }
 
+// splitFillers are n protocol names nobody registers
+func splitFillers(n int) []string {
+	out := make([]string, n)
+	for i := range out {
+		out[i] = fmt.Sprintf("unregistered-%02d", i)
+	}
+	return out
+}
+
 var splitClients = []splitClient{
 	{Name: "auth-A-pref-first", Kind: "auth", Extras: []string{"A"}, Pref: "first"},
 	{Name: "auth-B-A-pref-before-extras", Kind: "auth", Extras: []string{"B", "A"}, Pref: "before-extras"},
 	{Name: "auth-C-pref-before-extras", Kind: "auth", Extras: []string{"C"}, Pref: "before-extras"},
 	{Name: "auth-none-pref-first", Kind: "auth", Pref: "first"},
+	{Name: "auth-many-then-A", Kind: "auth", Extras: append(splitFillers(24), "A")},
+	{Name: "auth-many-then-B-pref-before-extras", Kind: "auth", Extras: append(splitFillers(40), "B"), Pref: "before-extras"},
 	{Name: "auth-none", Kind: "auth", Extras: nil},
 	{Name: "auth-A", Kind: "auth", Extras: []string{"A"}},
 	{Name: "auth-B-A", Kind: "auth", Extras: []string{"B", "A"}},
@@ -72,6 +83,7 @@ var splitClients = []splitClient{
 }
 
 type delivery struct {
+	connID   string // identity of the delivered connection object
 	listener string
 	marker   string
 	connType string
@@ -103,6 +115,7 @@ func runSplitCase(c *engine.Ctx, s *world.Server, node *world.Node, sc splitCase
 	subs := map[string]net.Listener{}
 	var mu sync.Mutex
 	var deliveries []delivery
+	var held []net.Conn
 	closedReports := map[string]error{}
 	var subWG sync.WaitGroup
 	for _, name := range names {
@@ -126,7 +139,7 @@ func runSplitCase(c *engine.Ctx, s *world.Server, node *world.Node, sc splitCase
 					mu.Unlock()
 					return
 				}
-				d := delivery{listener: name, connType: fmt.Sprintf("%T", conn)}
+				d := delivery{listener: name, connType: fmt.Sprintf("%T", conn), connID: fmt.Sprintf("%p", conn)}
 				switch tc := conn.(type) {
 				case *protocol.Conn:
 					d.negProto = tc.Conn.ConnectionState().NegotiatedProtocol
@@ -140,6 +153,7 @@ func runSplitCase(c *engine.Ctx, s *world.Server, node *world.Node, sc splitCase
 				}
 				mu.Lock()
 				deliveries = append(deliveries, d)
+				held = append(held, conn) // keeps the object alive, so that its address identifies it for the whole case
 				mu.Unlock()
 				_, _ = conn.Write([]byte("K"))
 				conn.Close()
@@ -286,6 +300,19 @@ func runSplitCase(c *engine.Ctx, s *world.Server, node *world.Node, sc splitCase
 			r.Count("conn_type_as_requested", 1)
 		}
 	}
+
+	// one connection object must come out of one sub-listener only
+	mu.Lock()
+	seenConn := map[string]string{}
+	for _, d := range deliveries {
+		if prev, dup := seenConn[d.connID]; dup && prev != d.listener {
+			r.Violation("delivered-twice", fmt.Sprintf("one connection was handed out by two sub-listeners (%q and %q)", prev, d.listener), sc)
+			break
+		}
+		seenConn[d.connID] = d.listener
+	}
+	_ = held
+	mu.Unlock()
 
 	// ---- shutdown: every sub-listener must report closed -----------------------
 	_ = lw.IL.Close()
